@@ -1,4 +1,5 @@
 import ApolloModel.Proofs.Lexer3
+import ApolloModel.Proofs.LexerTokens
 /-
 C03 — The lexer implements the GraphQL lexical grammar.
 
@@ -74,5 +75,188 @@ example : lex none ['"', '\n', '"'] = [.err ['"', '\n', '"'], .tok .eof []] := b
 -- known finding: a raw control character inside a string is accepted
 theorem C03_counterexample_sourcechar :
     lex none ['"', Char.ofNat 1, '"'] = [.tok .stringValue ['"', Char.ofNat 1, '"'], .tok .eof []] := by decide
+
+/-! ## Token kinds against the lexical grammar (Spec/Lexical.lean, written from October 2021 §2) -/
+section Grammar
+open Apollo.Spec.Lexical (IsIntValue IsFloatValue NumberLookaheadOk IsQuotedString StringChars IsComment
+  CommentLookaheadOk IsBlockString StringLookaheadOk)
+
+/-- the lexer's character classes are the grammar's Digit and NameStart -/
+theorem char_classes_agree (c : Char) :
+    isAsciiDigit c = Spec.Lexical.isDigit c ∧ isNameStart c = Spec.Lexical.isNameStart c := Lex.classes_agree c
+
+/-- NUMBERS, both directions, for every source: the DFA emits the token `Int t` leaving `rest` exactly
+    when the source is `t ++ rest` with `t` a spec IntValue and `rest` allowed by the lookahead
+    restriction `[lookahead != {Digit, ., NameStart}]` (or empty) … -/
+theorem lex_number_iff_spec (src t rest : Str) :
+    (advance src = (.tok .int t, rest) ↔ src = t ++ rest ∧ IsIntValue t ∧ NumberLookaheadOk rest) ∧
+    (advance src = (.tok .float t, rest) ↔ src = t ++ rest ∧ IsFloatValue t ∧ NumberLookaheadOk rest) := by
+  constructor
+  · constructor
+    · intro h
+      have hs := Lex.lex_number_sound src .int t rest h (Or.inl rfl)
+      have hc := Lex.advance_concat src
+      rw [h] at hc
+      rcases hs.1 with ⟨_, hi⟩ | ⟨hk, _⟩
+      · exact ⟨hc.symm, hi, hs.2⟩
+      · cases hk
+    · rintro ⟨rfl, hi, hl⟩; exact Lex.lex_int_complete t rest hi hl
+  · constructor
+    · intro h
+      have hs := Lex.lex_number_sound src .float t rest h (Or.inr rfl)
+      have hc := Lex.advance_concat src
+      rw [h] at hc
+      rcases hs.1 with ⟨hk, _⟩ | ⟨_, hf⟩
+      · cases hk
+      · exact ⟨hc.symm, hf, hs.2⟩
+    · rintro ⟨rfl, hf, hl⟩; exact Lex.lex_float_complete t rest hf hl
+
+/-- … and a source that starts like a number (digit or `-`) but has no prefix that is a spec number
+    followed by an allowed character yields an ERROR item: `01`, `1.`, `1e`, `1a`, `-`, `1.5.`, `0x1` … -/
+theorem lex_number_error (c : Char) (src : Str) (hc : isAsciiDigit c = true ∨ c = '-')
+    (hno : ∀ t rest, c :: src = t ++ rest → (IsIntValue t ∨ IsFloatValue t) → ¬ NumberLookaheadOk rest) :
+    (advance (c :: src)).1.isErr = true := by
+  cases hadv : advance (c :: src) with
+  | mk item rest =>
+    cases item with
+    | err d => rfl
+    | limit => rfl
+    | tok k t =>
+      exfalso
+      have hc' : Lex.D c ∨ c.toNat = 45 := by
+        rcases hc with h | h
+        · exact Or.inl ((Lex.lexDigit_iff c).mp h)
+        · right; rw [h]; rfl
+      have hs := Lex.lex_number_start_sound c src hc' k t rest hadv
+      have hcat := Lex.advance_concat (c :: src)
+      rw [hadv] at hcat
+      refine hno t rest hcat.symm ?_ hs.2
+      rcases hs.1 with ⟨_, h⟩ | ⟨_, h⟩
+      · exact Or.inl h
+      · exact Or.inr h
+
+example : (advance "01".toList).1 = .err "01".toList := by decide
+example : (advance "1.".toList).1 = .err "1.".toList := by decide
+example : (advance "1. ".toList).1 = .err "1. ".toList := by decide
+example : (advance "1e".toList).1 = .err "1e".toList := by decide
+example : (advance "1e+ ".toList).1 = .err "1e+ ".toList := by decide
+example : (advance "1a".toList).1 = .err "1a".toList := by decide
+example : (advance "-".toList).1 = .err "-".toList := by decide
+example : (advance "-a".toList).1 = .err "-a".toList := by decide
+example : (advance "1.5.".toList).1 = .err "1.5.".toList := by decide
+example : advance "-0.5E-10,".toList = (.tok .float "-0.5E-10".toList, ",".toList) := by decide
+example : advance "0)".toList = (.tok .int "0".toList, ")".toList) := by decide
+
+/-- STRINGS, soundness: every StringValue token the DFA emits is either a spec quoted string
+    `"` StringCharacter* `"` — with the lexer's documented relaxation that any character counts as a
+    SourceCharacter (the raw-control-character finding) — or starts with `"""` (a block string). -/
+theorem lex_string_sound (c : Char) (src t rest : Str) (h : advance (c :: src) = (.tok .stringValue t, rest)) :
+    IsQuotedString Lex.anyChar t ∨ ∃ tail, t = Lex.q3 ++ tail := by
+  rcases Lex.advance_token_sound c src .stringValue t rest h with hq | hb
+  · exact Or.inl (Lex.lexQuoted_spec hq)
+  · exact Or.inr hb
+
+/-- … and when the token contains only SourceCharacters it is a quoted string of the unrelaxed grammar -/
+theorem lex_string_sound_strict (c : Char) (src t rest : Str)
+    (h : advance (c :: src) = (.tok .stringValue t, rest))
+    (hsrc : ∀ x ∈ t, Spec.Lexical.isSourceCharacter x = true) :
+    IsQuotedString Spec.Lexical.isSourceCharacter t ∨ ∃ tail, t = Lex.q3 ++ tail := by
+  rcases lex_string_sound c src t rest h with ⟨body, rfl, hb⟩ | hq
+  · exact Or.inl ⟨body, rfl, Lex.sc_strict hb (fun x hx => hsrc x (by simp [hx]))⟩
+  · exact Or.inr hq
+
+/-- QUOTED STRINGS, both directions, in the lexer's exact language (`Lex.LexStringChars`: the
+    grammar's StringCharacter* with any character counted as SourceCharacter and `\uXXXX` not a
+    surrogate): a token that does not start with `"""` is emitted exactly for `"` StringCharacter* `"`,
+    where the empty string `""` must not be followed by a third quote. -/
+theorem lex_quoted_string_iff (src t rest : Str) (hnb : ¬ ∃ tail, t = Lex.q3 ++ tail) :
+    advance src = (.tok .stringValue t, rest) ↔
+      src = t ++ rest ∧ Lex.IsLexQuoted t ∧ StringLookaheadOk t rest := by
+  constructor
+  · intro h
+    have hc := Lex.advance_concat src
+    rw [h] at hc
+    simp only [Item.data] at hc
+    cases src with
+    | nil => simp [advance, runD, eofItem] at h
+    | cons c src =>
+      rcases Lex.advance_token_sound c src .stringValue t rest h with hq | hb
+      · refine ⟨hc.symm, hq, ?_⟩
+        intro ht
+        subst ht
+        cases rest with
+        | nil => simp
+        | cons x r =>
+          intro hx
+          have : x = '"' := by simpa using hx
+          subst this
+          obtain ⟨tail', hp⟩ := Lex.advance_block_prefix r
+          have hsrc : c :: src = '"' :: '"' :: '"' :: r := by simpa using hc.symm
+          rw [← hsrc, h] at hp
+          simp [Item.data, Lex.q3] at hp
+      · exact absurd hb hnb
+  · rintro ⟨rfl, ⟨body, rfl, hb⟩, hl⟩
+    have := Lex.lex_string_complete body rest hb (by
+      intro hbody; subst hbody; exact hl rfl)
+    simpa using this
+
+/-- the documented exceptions, as witnesses: a surrogate escape and a braced escape are rejected -/
+example : (advance "\"\\uD800\"".toList).1.isErr = true := by decide
+example : (advance "\"\\u{1F600}\"".toList).1.isErr = true := by decide
+example : advance "\"a\\n\\u00e9\" x".toList = (.tok .stringValue "\"a\\n\\u00e9\"".toList, " x".toList) := by decide
+example : advance "\"\"x".toList = (.tok .stringValue "\"\"".toList, "x".toList) := by decide
+
+/-- COMMENTS: `#` up to the next line terminator (or the end of input), one Comment token -/
+theorem lex_comment (rest : Str) :
+    advance ('#' :: rest) = (.tok .comment ('#' :: rest.takeWhile (fun c => !isLineTerminator c)),
+      rest.dropWhile (fun c => !isLineTerminator c)) := Lex.lex_comment rest
+
+/-- WHITESPACE: TAB, SPACE, LF, CR and the BOM are merged into one maximal run -/
+theorem lex_whitespace (c : Char) (rest : Str) (h : isWhitespaceAssimilated c = true) :
+    advance (c :: rest) = (.tok .whitespace (c :: rest.takeWhile isWhitespaceAssimilated),
+      rest.dropWhile isWhitespaceAssimilated) := Lex.lex_whitespace c rest h
+
+/-- `...` is a token; any other text starting with a dot is an error -/
+theorem lex_spread (rest : Str) : advance ('.' :: '.' :: '.' :: rest) = (.tok .spread ['.', '.', '.'], rest) :=
+  Lex.lex_spread rest
+theorem lex_dot_error (rest : Str) (h : rest.take 2 ≠ ['.', '.']) : (advance ('.' :: rest)).1.isErr = true :=
+  Lex.lex_dot_error rest h
+
+/-- EVERY TOKEN: whatever token one `advance` emits is a token of the lexical grammar of that kind
+    (Name, IntValue, FloatValue, StringValue, Comment, punctuator, `...`, whitespace run), and what
+    follows satisfies the grammar's lookahead restriction for that kind. -/
+theorem advance_token_sound (c : Char) (src : Str) (k : Kind) (t rest : Str)
+    (h : advance (c :: src) = (.tok k t, rest)) : Lex.TokenOk k t rest :=
+  Lex.advance_token_sound c src k t rest h
+
+/-- WHOLE INPUT, the ⇒ half of "no error ⟺ valid token sequence": when lexing reports no error the
+    item stream is a tokenisation of the input by the lexical grammar. -/
+theorem lex_ok_tokens_sound (src : Str) (h : ∀ it ∈ lex none src, it.isErr = false) :
+    Lex.SpecTokens src (lex none src) := Lex.lex_ok_tokens_sound src h
+
+/-- the exact language of StringValue tokens the lexer is meant to accept -/
+def IsStringToken (t rest : Str) : Prop :=
+  (Lex.IsLexQuoted t ∧ StringLookaheadOk t rest) ∨
+    IsBlockString Lex.anyChar t
+
+/-- a tokenisation in which, in addition, every StringValue token is in that exact language -/
+inductive ExactTokens : Str → List Item → Prop where
+  | eof : ExactTokens [] [.tok .eof []]
+  | cons {k : Kind} {t rest : Str} {items : List Item} : t ≠ [] → Lex.TokenOk k t rest →
+      (k = .stringValue → IsStringToken t rest) → ExactTokens rest items →
+      ExactTokens (t ++ rest) (.tok k t :: items)
+
+/-- The whole-input theorem, both directions — stated, not proved: lexing reports no error exactly
+    when the input has a tokenisation by the lexical grammar, and then the item stream is that
+    tokenisation.  `lex_ok_tokens_sound` is the ⇒ half up to the exact shape of string tokens.
+    Missing: completeness of the string states (every `LexStringChars` quoted string and every block
+    string is accepted) and the exactness of block strings; the per-kind completeness of the other
+    kinds is proved (`lex_number_iff_spec`, `lex_name`, `lex_comment`, `lex_whitespace`,
+    `lex_punctuator`, `lex_spread`). -/
+def lex_ok_iff_spec_tokens : Prop :=
+  ∀ src : Str, ((∀ it ∈ lex none src, it.isErr = false) ↔ ∃ items, ExactTokens src items) ∧
+    (∀ items, ExactTokens src items → lex none src = items)
+
+end Grammar
 
 end Apollo.C03
